@@ -61,6 +61,26 @@ type EnumSpec struct {
 	Order   []string       `json:"order"`
 }
 
+// EnumCase is the expected outcome for one source value of an enum pair.
+type EnumCase struct {
+	In   string `json:"in"`   // source value (literal text; parsed by the kind of the source type)
+	Kind string `json:"kind"` // value | error | panic | zero
+	Out  string `json:"out,omitempty"`
+}
+
+// EnumPair is the resolved name-driven mapping of one (source enum, target enum) pair.
+type EnumPair struct {
+	Src     string     `json:"src"` // pkgpath.Name
+	Tgt     string     `json:"tgt"`
+	Cases   []EnumCase `json:"cases"`
+	Unknown EnumCase   `json:"unknown"`
+}
+
+// RefPanic: the reference expects the generated code to panic (enum @panic action).
+type RefPanic struct{ Why string }
+
+func (p *RefPanic) Error() string { return "expected panic: " + p.Why }
+
 // Ref is the reference interpreter.
 type Ref struct {
 	Conv      Flags
@@ -69,6 +89,7 @@ type Ref struct {
 	Callables map[string]reflect.Value
 	Funcs     map[string]*FuncSpec
 	Enums     map[string]*EnumSpec
+	EnumPairs map[string]*EnumPair
 	Impl      reflect.Value
 	// Allowed collects memory that may legitimately be shared (skipCopySameType positions).
 	Allowed []Interval
@@ -615,5 +636,86 @@ func (r *Ref) enumOf(t reflect.Type) *EnumSpec {
 }
 
 func (r *Ref) enumConv(src reflect.Value, T reflect.Type, se, te *EnumSpec, st state, path []string) (reflect.Value, error) {
-	return reflect.Value{}, &Unsupported{"enum conversion is judged by the enum model"}
+	pair := r.EnumPairs[typeKey(src.Type())+"->"+typeKey(T)]
+	if pair == nil {
+		return reflect.Value{}, &Unsupported{"enum pair without a resolved mapping"}
+	}
+	out := reflect.New(T).Elem()
+	apply := func(c EnumCase) (reflect.Value, error) {
+		switch c.Kind {
+		case "value":
+			setBasic(out, c.Out)
+			return out, nil
+		case "zero":
+			return out, nil
+		case "error":
+			return out, &RefError{Err: fmt.Errorf("unexpected enum element"), Path: path}
+		case "panic":
+			return out, &RefPanic{Why: "enum action @panic for " + Format(src)}
+		}
+		return out, &Unsupported{"enum case kind " + c.Kind}
+	}
+	for _, c := range pair.Cases {
+		probe := reflect.New(src.Type()).Elem()
+		setBasic(probe, c.In)
+		if ok, _ := Equal(probe, forceIface(src)); ok {
+			return apply(c)
+		}
+	}
+	return apply(pair.Unknown)
+}
+
+// enumOutcomes scans a source value for enum leaves whose documented outcome is an error or a panic.
+// With several such elements (map iteration order!) either may be observed first.
+func (r *Ref) enumOutcomes(v reflect.Value) (mayErr, mayPanic bool) {
+	bySrc := map[string]*EnumPair{}
+	for _, p := range r.EnumPairs {
+		bySrc[p.Src] = p
+	}
+	var walk func(v reflect.Value, depth int)
+	walk = func(v reflect.Value, depth int) {
+		if !v.IsValid() || depth > 100 {
+			return
+		}
+		if p, ok := bySrc[typeKey(v.Type())]; ok {
+			kind := p.Unknown.Kind
+			for _, c := range p.Cases {
+				probe := reflect.New(v.Type()).Elem()
+				setBasic(probe, c.In)
+				if eq, _ := Equal(probe, forceIface(v)); eq {
+					kind = c.Kind
+					break
+				}
+			}
+			switch kind {
+			case "error":
+				mayErr = true
+			case "panic":
+				mayPanic = true
+			}
+			return
+		}
+		switch v.Kind() {
+		case reflect.Ptr, reflect.Interface:
+			if !v.IsNil() {
+				walk(v.Elem(), depth+1)
+			}
+		case reflect.Slice, reflect.Array:
+			for i := 0; i < v.Len(); i++ {
+				walk(v.Index(i), depth+1)
+			}
+		case reflect.Map:
+			it := v.MapRange()
+			for it.Next() {
+				walk(it.Key(), depth+1)
+				walk(it.Value(), depth+1)
+			}
+		case reflect.Struct:
+			for i := 0; i < v.NumField(); i++ {
+				walk(field(v, i), depth+1)
+			}
+		}
+	}
+	walk(v, 0)
+	return
 }
